@@ -191,16 +191,17 @@ type panicRec struct {
 }
 
 type stressCfg struct {
-	s        *spec
-	tab      *table
-	methods  []meth
-	weights  []int // relative frequency per method
-	G        int
-	iters    int
-	prefill  int
-	timeout  time.Duration
-	seed     uint64
-	inflight []atomic.Value
+	s                    *spec
+	tab                  *table
+	methods              []meth
+	weights              []int // relative frequency per method
+	G                    int
+	iters                int
+	prefill              int
+	timeout              time.Duration
+	seed                 uint64
+	inflight             []atomic.Value
+	lastErr, lastErrMeth atomic.Value
 }
 
 // runStress: G goroutines issue random calls on ONE instance. Returns panics seen, whether the watchdog fired
@@ -244,6 +245,10 @@ func runStress(c *stressCfg) (panics []panicRec, deadlock string, calls int64) {
 				res := invoke(inst, m, args)
 				c.inflight[g].Store("")
 				atomic.AddInt64(&ncalls, 1)
+				if !res.panicked && failed(res) {
+					c.lastErr.Store(m.name + "(" + clipStr(argString(args), 60) + ")")
+					c.lastErrMeth.Store(m.name)
+				}
 				if res.panicked {
 					mu.Lock()
 					if len(panics) < 200 {
@@ -271,7 +276,8 @@ func runStress(c *stressCfg) (panics []panicRec, deadlock string, calls int64) {
 				fl = append(fl, v)
 			}
 		}
-		deadlock = fmt.Sprintf("calls in flight: %v\n%s", fl, clipStr(string(buf[:n]), 6000))
+		le, _ := c.lastErr.Load().(string)
+		deadlock = fmt.Sprintf("calls in flight: %v; last call that returned an error: %q\n%s", fl, le, clipStr(string(buf[:n]), 6000))
 	}
 	return panics, deadlock, atomic.LoadInt64(&ncalls)
 }
@@ -291,8 +297,13 @@ func probeSeqPanics(s *spec, ms []meth, seed uint64) map[string]string {
 	for _, m := range ms {
 		for trial := 0; trial < 24 && bad[m.name] == ""; trial++ {
 			inst := s.mk([]int{0, 1, 2, 5, 9}[trial%5])
+			seqReset()
 			for k := 0; k < 3; k++ {
-				if res := invoke(inst, m, genArgs(m, r, nil)); res.panicked {
+				res, blocked := invokeSeq(inst, m, genArgs(m, r, nil))
+				if blocked {
+					return bad
+				}
+				if res.panicked {
 					bad[m.name] = res.pval
 					break
 				}
@@ -312,12 +323,15 @@ func replayPanic(s *spec, ms []meth, p panicRec, seed uint64) bool {
 	}
 	for trial := 0; trial < 300; trial++ {
 		inst := s.mk(r.Intn(12))
+		seqReset()
 		steps := r.Intn(40)
 		for k := 0; k < steps; k++ {
 			m := ms[r.Intn(len(ms))]
-			invoke(inst, m, genArgs(m, r, nil))
+			if _, blocked := invokeSeq(inst, m, genArgs(m, r, nil)); blocked {
+				return true
+			}
 		}
-		res := invoke(inst, p.m, genArgs(p.m, vhlib.NewRng(p.seed), nil))
+		res, _ := invokeSeq(inst, p.m, genArgs(p.m, vhlib.NewRng(p.seed), nil))
 		if res.panicked && strings.HasPrefix(res.pval, prefix) {
 			return true
 		}
@@ -380,12 +394,14 @@ func observe(s *spec, inst interface{}, results [][]callResult, sc *scenario) []
 
 func runSerial(s *spec, sc *scenario, order []int) []int64 {
 	inst := s.mk(sc.prefill)
+	seqReset()
 	results := make([][]callResult, len(sc.threads))
 	pos := make([]int, len(sc.threads))
 	for _, t := range order {
 		c := sc.threads[t][pos[t]]
 		pos[t]++
-		results[t] = append(results[t], invoke(inst, c.m, genArgs(c.m, vhlib.NewRng(c.seed), c.key)))
+		res, _ := invokeSeq(inst, c.m, genArgs(c.m, vhlib.NewRng(c.seed), c.key))
+		results[t] = append(results[t], res)
 	}
 	return observe(s, inst, results, sc)
 }
@@ -633,13 +649,70 @@ func filterMeths(ms []meth, bad map[string]string) []meth {
 	return r
 }
 
+// childSetup: documents of the type under test, and the handler for a sequential call that blocks (= the instance lock
+// was left held by an earlier call): record the violation and stop, everything after it would block as well.
+func childSetup(o vhlib.Opts, s *spec, tab *table, out *childOut) {
+	onBlocked = func(blockedMeth, args, failedMeth, failedCall string) {
+		label, what := s.name+"."+blockedMeth, "deadlock: "+blockedMeth+"("+args+") blocked > "+seqTimeout.String()+" in a run without concurrency"
+		if failedMeth != "" {
+			tn := s.name
+			if e := tab.entryOf(s, failedMeth); e != nil {
+				tn = e.Type
+			}
+			label, what = tn+"."+failedMeth, "deadlock after failed "+failedMeth
+		}
+		buf := make([]byte, 1<<18)
+		n := runtime.Stack(buf, true)
+		out.Violations = append(out.Violations, violOut{label, what, map[string]interface{}{
+			"failed_call": failedCall, "then_blocked": blockedMeth + "(" + args + ")", "blocked_for": seqTimeout.String(),
+			"meaning":    "the call returned an error (or panicked) and left the instance lock held: every later call on the instance blocks forever",
+			"goroutines": clipStr(string(buf[:n]), 3000)}})
+		out.Done = true
+		out.save(o.Out)
+		os.Exit(0)
+	}
+	setDocs(s)
+}
+
+// errorPathProbe: every method that can fail is made to fail (invalid documents, out-of-range arguments) on a fresh
+// instance; afterwards the instance must still answer. A lock left held on an error path shows as a blocked follow-up
+// call (onBlocked reports "Type.Method | deadlock after failed Method").
+func errorPathProbe(s *spec, ms []meth, seed uint64, out *childOut) {
+	r := vhlib.NewRng(seed ^ 0xe44)
+	errT := reflect.TypeOf((*error)(nil)).Elem()
+	probed, failures := 0, 0
+	for _, m := range ms {
+		n := m.typ.NumOut()
+		if n == 0 || !m.typ.Out(n-1).Implements(errT) {
+			continue
+		}
+		probed++
+		for trial := 0; trial < 16; trial++ {
+			inst := s.mk([]int{0, 3, 6}[trial%3])
+			seqReset()
+			res, _ := invokeSeq(inst, m, genArgs(m, r, nil))
+			if !failed(res) {
+				continue
+			}
+			failures++
+			for k := 0; k < 3; k++ { // the instance must still be usable
+				f := ms[r.Intn(len(ms))]
+				invokeSeq(inst, f, genArgs(f, r, nil))
+			}
+		}
+	}
+	out.Notes["error_path_probe"] = map[string]int{"methods_returning_error": probed, "failing_calls_followed_up": failures}
+}
+
 func childType(o vhlib.Opts, name string, tab *table, out *childOut) {
 	s := specByName(name)
 	if s == nil {
 		out.Violations = append(out.Violations, violOut{name, "harness: no registry entry", nil})
 		return
 	}
+	childSetup(o, s, tab, out)
 	all, skipped := usableMethods(s.mk(2))
+	errorPathProbe(s, all, o.Seed, out)
 	bad := probeSeqPanics(s, all, o.Seed)
 	ms := filterMeths(all, bad)
 	out.Notes["skipped"] = skipped
@@ -664,7 +737,14 @@ func childType(o vhlib.Opts, name string, tab *table, out *childOut) {
 	panics, dl, calls := runStress(cfg)
 	out.Calls = calls
 	if dl != "" {
-		out.Violations = append(out.Violations, violOut{name, "deadlock (watchdog: calls still in flight after 40s)", dl})
+		label, what := name, "deadlock (watchdog: calls still in flight after 40s)"
+		if fm, _ := cfg.lastErrMeth.Load().(string); fm != "" {
+			if e := tab.entryOf(s, fm); e != nil {
+				label = e.Type + "." + fm
+			}
+			what = "deadlock after failed " + fm + " (watchdog: calls still in flight after 40s)"
+		}
+		out.Violations = append(out.Violations, violOut{label, what, dl})
 		return
 	}
 	seenP := map[string]bool{}
@@ -708,7 +788,9 @@ func childTarget(o vhlib.Opts, name string, tab *table, out *childOut) {
 		out.Notes["no_spec"] = name
 		return
 	}
+	childSetup(o, s, tab, out)
 	all, _ := usableMethods(s.mk(2))
+	errorPathProbe(s, all, o.Seed, out)
 	ms := filterMeths(all, probeSeqPanics(s, all, o.Seed))
 	w := make([]int, len(ms))
 	found := false
@@ -756,6 +838,7 @@ func childLost(o vhlib.Opts, name string, tab *table, out *childOut) {
 	if s == nil {
 		return
 	}
+	childSetup(o, s, tab, out)
 	all, _ := usableMethods(s.mk(2))
 	ms := filterMeths(all, probeSeqPanics(s, all, o.Seed))
 	target := findMeth(ms, mn)
@@ -909,9 +992,33 @@ func delegateSanity(w *vhlib.Writer, tab *table, seed uint64) {
 		if s.mkU == nil {
 			continue
 		}
+		s := s
+		reported := false
+		onBlocked = func(blockedMeth, args, failedMeth, failedCall string) {
+			if reported {
+				return
+			}
+			reported = true
+			label, what := s.name+"."+blockedMeth, "deadlock: "+blockedMeth+"("+args+") blocked > "+seqTimeout.String()+" in a run without concurrency"
+			if failedMeth != "" {
+				tn := s.name
+				if e := tab.entryOf(s, failedMeth); e != nil {
+					tn = e.Type
+				}
+				label, what = tn+"."+failedMeth, "deadlock after failed "+failedMeth
+			}
+			w.Violation(label, what, map[string]interface{}{"failed_call": failedCall, "then_blocked": blockedMeth + "(" + args + ")",
+				"where": "sequential wrapper-vs-container trace (no concurrency): the failed call left the instance lock held"})
+		}
+		setDocs(s)
+		seqReset()
 		safe, twin := s.mk(4), s.mkU(4)
 		ms, _ := usableMethods(safe)
 		ms = filterMeths(ms, probeSeqPanics(s, ms, seed))
+		seqReset()
+		if reported {
+			continue
+		}
 		tm, _ := usableMethods(twin)
 		r := vhlib.NewRng(seed*17 + 3)
 		var a, b []int64
@@ -927,7 +1034,10 @@ func delegateSanity(w *vhlib.Writer, tab *table, seed uint64) {
 			u2.single = m.single // identical arguments on both sides
 			um = &u2
 			as := r.U64()
-			ra := invoke(safe, m, genArgs(m, vhlib.NewRng(as), nil))
+			ra, blocked := invokeSeq(safe, m, genArgs(m, vhlib.NewRng(as), nil))
+			if blocked {
+				break
+			}
 			rb := invoke(twin, *um, genArgs(*um, vhlib.NewRng(as), nil))
 			a = append(a, encResult(m.name, ra, s.sorted)...)
 			b = append(b, encResult(m.name, rb, s.sorted)...)
